@@ -150,7 +150,7 @@ manifest = {
     "setup_cmd": "cd /verif/harness && CARGO_NET_OFFLINE=true cargo build --offline",
     "hooks": {
         "guard": "cargo feature `__verif` on d-engine-core and d-engine-server (off by default)",
-        "enable": "the harness crate /verif/harness depends on /repo's crates by path with features [\"__verif\"]; every ./check invocation runs `cargo build --offline` first, rebuilding d-engine from /repo's working tree",
+        "enable": "the harness crate /verif/harness depends on /repo's crates by path with features [\"__verif\"]; every ./check invocation runs `cargo build --offline` first, rebuilding d-engine from /repo's working tree (incremental compilation off: the binary is a function of that tree alone; a rebuild after a d-engine change takes about 4 min on 16 cores, an unchanged tree < 1 s)",
         "baseline_off_cmd": "cd /repo && cargo nextest run --workspace --no-fail-fast --test-threads 8 --offline",
         "source_commits": hooks_commits(),
         "add_only": True,
